@@ -377,7 +377,7 @@ func buildRaceSelf(c *core.Ctx) (bin string, cleanup func()) {
 	if raceEnabled {
 		return "", func() {}
 	}
-	dir := scratchDir("")
+	dir := scratchDir(fastScratch)
 	bin = filepath.Join(dir, "c07-race")
 	args := []string{"build", "-tags", "verif", "-race"}
 	if ov := os.Getenv("VERIF_OVERLAY"); ov != "" {
@@ -439,9 +439,9 @@ func monitorConcurrent(c *core.Ctx) {
 			}
 			in.Table = append(in.Table, job)
 		}
-		dir := scratchDir("/dev/shm")
+		dir := scratchDir(fastScratch)
 		defer os.RemoveAll(dir)
-		rs[i] = result{in: in, res: core.RunChild("conc", in, core.ChildOpt{Timeout: 4 * time.Minute, GOMAXPROCS: procs[rng.Intn(len(procs))], Dir: dir, KeepDir: true, Prefix: prefix})}
+		rs[i] = result{in: in, res: runChild("conc", in, core.ChildOpt{Timeout: 4 * time.Minute, GOMAXPROCS: procs[rng.Intn(len(procs))], Dir: dir, KeepDir: true, Prefix: prefix})}
 	})
 	raceSeen := map[string]bool{}
 	for i, r := range rs {
